@@ -90,7 +90,9 @@ func runC15(r *Run) {
 				return gOp{Kind: "Compose", Bucket: "bkt", Name: dst, Srcs: srcs, SrcGens: gens, DstMeta: dm}
 			case 1:
 				sb := gBuckets[d.w(4, 1)]
-				src := existingName(d, m, sb, append(srcNames, "nope"))
+				// missing sources include a "folder" of stored objects (dir/s3 is stored): such a
+				// name is not an object on either store and the copy must answer 404
+				src := existingName(d, m, sb, append(srcNames, "nope", "dir"))
 				db := gBuckets[d.w(3, 2)]
 				return gOp{Kind: "Copy", Bucket: sb, Name: src, DstB: db, DstN: dsts[d.n(len(dsts))]}
 			case 2:
